@@ -203,9 +203,11 @@ class C19(scen.WorldProp):
         r = rng.random()
         if r < 0.3:
             # a selection arrives mid-touch, then the touch is stopped and a new one started
-            s2 = rng.choice([4, 6, N])
-            t_sel = t0 + 3 + rng.uniform(1, 5) * row_t
-            t_stop = t_sel + rng.uniform(0.5, 2) * row_t
+            # (the selection may be too big for the tower, and may arrive while the opening rounds are still being
+            # rung: it is for the next touch and must leave this one alone)
+            s2 = rng.choice([4, 6, N, N, N + 2, 12])
+            t_sel = t0 + (3 + rng.uniform(1, 5) * row_t if rng.random() < 0.6 else rng.uniform(0.2, 3 + 2 * row_t))
+            t_stop = max(t_sel, t0 + 3 + 3 * row_t) + rng.uniform(0.5, 2) * row_t
             t1 = t_stop + 1.0 + rng.random()
             events += [[t_sel, "msg", method_msg(s2)], [t_stop, "msg", {"m": "stop_touch"}],
                        [t1 - 0.4, "msg", {"m": "global_state", "state": [True] * N}],     # bells set at hand
@@ -525,7 +527,10 @@ class C19(scen.WorldProp):
                 return f"touch 1 row {i} = {r}, the method selected before Look To gives {want[i]}"
         if "second" in plan:
             rows2 = touch_rows(plan["t1"], float("inf"))
-            s2 = plan["second"]
+            # (a selection that is too big for the tower is dropped when the bells are set at hand before the next
+            # Look To - the tower's state arrives, `_on_size_change` looks at the queue - and the method rung
+            # before is rung again)
+            s2 = plan["second"] if plan["second"] <= N else plan["first"]
             want2 = [list(range(1, N + 1))] * 2 + [r + list(range(s2 + 1, N + 1)) for r in plain_rows(s2, 30)]
             for i, r in enumerate(rows2):
                 if i < len(want2) and r != want2[i]:
